@@ -591,7 +591,7 @@ var c12Atoms = []string{
 	// booleans
 	"true", "false", "TRUE",
 	// regular expressions
-	`/a\/b/`, `/^a.*$/`, `/a b/`, `/\d+/`, `/a\\b/`, `/(x|y)/`,
+	`/a\/b/`, `/^a.*$/`, `/a b/`, `/\d+/`, `/a\\b/`, `/(x|y)/`, `/a\/b\/c/`, `/^\/api\/v1/`, `/\/\//`, `/\//`,
 	// calls, arity 0..2
 	"f()", "f(a)", "f(a, 1)", "f(2.0)", "now()", "F(A)", "f(/re/)", "f(*)", "f('s', 5m)", "f(g(a), -1)", "f(a + 1)", "f((a))",
 	// others the parsers know
